@@ -28,7 +28,12 @@ for m in muts:
         r = subprocess.run([os.path.join(V, 'bin/govc'), 'func', '-t', '25', m['pkg'], m['func']], capture_output=True, text=True)
         out = r.stdout + r.stderr
         failing = [l.split()[3] if l.startswith('failed') and 'structural' not in l else (l.split()[2] if not l.startswith('translate') else 'translation') for l in out.splitlines() if l.startswith(('failed', 'unknown  ', 'unknown ', 'translate:')) and 'unknown call' not in l]
-        detected = r.returncode != 0 and ('not discharged' in out or 'translate:' in out or 'load error' in out)
+        detected = r.returncode != 0 and ('not discharged' in out or 'translate:' in out)
+        if 'load error' in out or 'errors in package' in out:
+            print("%-32s INVALID  the mutant does not compile: %s" % (m['id'], out.strip().splitlines()[-1][:100]))
+            bad += 1
+            results.append({"id": m['id'], "result": "invalid"})
+            continue
         print("%-32s %s %s" % (m['id'], 'DETECTED' if detected else 'MISSED  ', ' '.join(failing[:2])[:110]))
         results.append({"id": m['id'], "function": m['func'], "result": "detected" if detected else "missed", "failed_obligations": failing[:3], "note": m.get('note', '')})
         if not detected:
